@@ -83,6 +83,16 @@ impl Clone for Waker {
         ensures r == *self,
     { unimplemented!() }
 }
+#[verifier::allow(undeclared_external_trait)]
+pub assume_specification<T, P: FnOnce(&T) -> bool>[Option::<T>::filter](o: Option<T>, p: P) -> (r: Option<T>)
+    where T: std::marker::Destruct, P: std::marker::Destruct
+    requires o matches Some(v) ==> p.requires((&v,)),
+    ensures
+        o is None ==> r is None,
+        o matches Some(v) ==> (r == o || r is None),
+        (o matches Some(v) && p.ensures((&v,), true)) ==> r == o,
+        (o matches Some(v) && p.ensures((&v,), false)) ==> r is None;
+
 /// a closure literal that has no directive of its own: constructing it has no effect; its body is unverified code (listed in evidence)
 pub struct AnyClosure { pub _p: () }
 #[verifier::external_body]
